@@ -4013,7 +4013,7 @@ class SubProofMacro(Macro):
         goal_neg_tms = args[:-1]
         goal_concl = args[-1]
         if all(g == Not(p) for g, p in zip(goal_neg_tms, input_prop)) and goal_concl == concl:
-            return Thm(Or(*args))
+            return Thm(Or(*args), tuple(h for h in prevs[-1].hyps if h not in input_prop))
         else:
             raise VeriTException("subproof", "unexpected result")
 
